@@ -2687,6 +2687,50 @@ def check_division_scaling(ctx, res, config="all"):
                         r = _shift_calls_behind(b, rp["local"], "shr")
                         if r is not None and r[2] == ("field", d["local"], 1):
                             down = (r[0], r[1])
+            # a private helper wrapped around the core (`div_rem_scaled(u << s, d << s, s)`): its dividend is a parameter -
+            # the left shifts are at its call sites; the helper's amounts that are parameters are mapped to the arguments
+            inner_here = []
+            if inner is not None:
+                for a_ in inner[1]:
+                    if a_ is not None and cb.is_param(a_) and a_ - 1 < len(t["args"]):
+                        ap = core.op_place(t["args"][a_ - 1])
+                        if ap is not None and not ap["proj"]:
+                            inner_here.append(_move_root(b, ap["local"]))
+                        elif core.op_const(t["args"][a_ - 1]) == 0:
+                            continue
+                        else:
+                            inner_here.append(None)
+                    else:
+                        inner_here.append(None)
+            via = None
+            if up is not None and up[2][0] == "param" and not b.exported() and down is not None and inner is not None:
+                k_ = up[2][1]
+                sites2 = [(b2, t2) for b2 in facts.bodies if b2.kind != "Closure" for (x2, t2) in b2.calls() if callee(t2) == b.path and x2 in b2.live_blocks()]
+                ups2 = []
+                for (b2, t2) in sites2:
+                    a2 = core.op_place(t2["args"][k_ - 1]) if k_ - 1 < len(t2["args"]) else None
+                    u2 = _shift_calls_behind(b2, a2["local"], "shl") if a2 is not None and not a2["proj"] else None
+                    if u2 is None:
+                        ups2 = None
+                        break
+                    # amounts: the helper's own amount locals that are its parameters, seen from this caller
+                    def seen(l_, b2=b2, t2=t2):
+                        if l_ is not None and b.is_param(l_) and l_ - 1 < len(t2["args"]):
+                            ap_ = core.op_place(t2["args"][l_ - 1])
+                            return ("caller", _move_root(b2, ap_["local"])) if ap_ is not None and not ap_["proj"] else None
+                        return ("local", l_) if l_ is not None else None
+                    ups2.append((u2[0], [("caller", x_) for x_ in u2[1]], seen))
+                if ups2:
+                    via = ups2
+            via_ok = False
+            if via is not None:
+                via_ok = True
+                for (n2, amts2, seen) in via:
+                    n_in_t = up[0] + n2
+                    n_out_t = len(inner_here) + down[0]
+                    am = set(amts2) | {seen(x_) for x_ in up[1]} | {seen(x_) for x_ in down[1]} | {seen(x_) for x_ in inner_here}
+                    if n_in_t != n_out_t or (n_in_t and (None in am or len(am) != 1)):
+                        via_ok = False
             if up is None or down is None or inner is None or inner[2] != ("param", 1):
                 res.note("R3-div-scaling: %s: the dividend/remainder chain around div_rem_core is not in the shapes this rule follows - the rescaling of the remainder is not decided here" % key)
                 res.obligations += 1
@@ -2708,7 +2752,10 @@ def check_division_scaling(ctx, res, config="all"):
                     inner_amts.append(None)
             n_in, n_out = up[0], len(inner_amts) + down[0]
             amts = set(up[1]) | set(down[1]) | set(inner_amts)
-            if n_in != n_out:
+            if (n_in != n_out or (n_in and (None in amts or len(amts) != 1))) and via_ok:
+                # the imbalance is that of a private helper wrapped around the core; every call site of the helper balances it
+                res.ok("R3-div-scaling", key, {"through_helper": b.name, "call_sites_of_the_helper": len(via)})
+            elif n_in != n_out:
                 res.fail(Finding("R3-div-scaling", key, "the dividend handed to div_rem_core is shifted left %d time(s) but the remainder is shifted back %d time(s) (%d inside the core, %d after the call): the remainder is off by a power of two whenever the divisor's top digit is not full" % (n_in, n_out, inner[0], down[0]), b, t["span"]["line"]))
             elif n_in and (None in amts or len(amts) != 1):
                 res.fail(Finding("R3-div-scaling", key, "the dividend is scaled and the remainder scaled back by different amounts (%d distinct)" % len(amts), b, t["span"]["line"]))
